@@ -17,6 +17,12 @@ from .common import Frame, tag
 from .density import sym_dm
 
 
+def _asym(M, shape):
+    h = M.vec("h", shape)
+    h[1, 0] = h[0, 1] + M.pos("gap")  # asymmetric for every value of the symbols, not merely generically
+    return h
+
+
 class ESP:
     function = "gbasis.evals.electrostatic_potential.electrostatic_potential"
     sparse = True
@@ -138,7 +144,7 @@ class ESP:
         with bind.patched((esp, "point_charge_integral", pci)):
             cases = {
                 "dm-1d": lambda: f(basis, dm[0], points, nuc, Z),
-                "dm-asymmetric": lambda: f(basis, M.vec("h", dm.shape), points, nuc, Z),
+                "dm-asymmetric": lambda: f(basis, _asym(M, dm.shape), points, nuc, Z),
                 "dm-size": lambda: f(basis, sym_dm(M, dm.shape[0] + 1, "k"), points, nuc, Z),
                 "nuc-coords-1d": lambda: f(basis, dm, points, nuc[0], Z),
                 "charges-2d": lambda: f(basis, dm, points, nuc, Z[None, :]),
